@@ -28,6 +28,7 @@
 #include "misc.h"
 #include "hamm.h"		/* vbi_iham8(), vbi_iham16p() */
 #include "pfc_demux.h"
+#include "verif_annot.h"
 
 #define BLOCK_SEPARATOR 0x0C
 #define FILLER_BYTE 0x03
@@ -100,7 +101,9 @@ _vbi_pfc_demux_decode		(vbi_pfc_demux *	dx,
 
 	col = 3;
 
-	while (col < 42) {
+	while (col < 42)
+	ZVBI_LOOP_CONTRACT (ZVBI_VERIF_PFC_DECODE_LOOP (dx, buffer, col))
+	{
 		int bs;
 
 		if (dx->left > 0) {
@@ -138,6 +141,8 @@ _vbi_pfc_demux_decode		(vbi_pfc_demux *	dx,
 				dx->bi = 0;
 				dx->left = dx->block.block_size; 
 
+				ZVBI_GHOST (ZVBI_VERIF_PFC_DECODE_SYNC
+					    (dx, buffer, col);)
 				continue;
 			} else {
 				if (!dx->callback (dx, dx->user_data,
@@ -179,6 +184,8 @@ _vbi_pfc_demux_decode		(vbi_pfc_demux *	dx,
 		dx->left = 4;
 
 		dx->block.application_id = (unsigned int) -1;
+
+		ZVBI_GHOST (ZVBI_VERIF_PFC_DECODE_SYNC (dx, buffer, col);)
 	}
 
 	return TRUE;
